@@ -1,2 +1,263 @@
-// stub created by the lead so that the workspace always loads; replace it with the check
-fn main() {}
+//! C04 — domain names: case-insensitive identity, canonical order, length limits, wire/text
+//! round trips.
+//!
+//! E-ENUM over five declared families, all executed on the real `Name` / `LowerName` / `RrKey` /
+//! `BinEncoder` / `BinDecoder` code and judged against `vref::name` (written from RFC 1035 3.1,
+//! RFC 4343, RFC 4034 6.1) and the independent wire walker `vref::wire`:
+//!
+//! * pair   — ALL ordered pairs of a name universe: eq, hash, cmp (+ LowerName, RrKey)
+//! * triple — all triples of a small absolute+relative universe: transitivity
+//! * wire   — name x offset {0,12,0x3ffe,0x3fff,0x4000} x compression scenario x encoding mode;
+//!            hickory's decoder on reference-made literal / pointer encodings
+//! * text   — all host-style names of 1..3 labels: to_ascii/from_ascii, Display/FromStr
+//! * limit  — label-length vectors around 63 / 255 through every constructor and combinator
+
+mod common;
+mod limits;
+mod pairs;
+mod textfam;
+mod wirefam;
+
+use serde_json::json;
+use vcore::{Ctx, Odometer};
+use vref::name::{Labels, RefName};
+
+use common::*;
+
+fn fq(names: Vec<Labels>) -> Vec<RefName> {
+    names.into_iter().map(|l| RefName::new(l, true)).collect()
+}
+
+fn both(names: Vec<Labels>) -> Vec<RefName> {
+    let mut v = vec![];
+    for l in names {
+        v.push(RefName::new(l.clone(), true));
+        v.push(RefName::new(l, false));
+    }
+    v
+}
+
+/// Names at the length limits for the wire family (all valid).
+fn boundary_names() -> Vec<Labels> {
+    let shapes: Vec<Vec<usize>> = vec![
+        vec![63, 63, 63, 61],
+        vec![61, 63, 63, 63],
+        vec![63, 63, 63, 60],
+        vec![1; 127],
+        vec![1; 126],
+        vec![62, 62, 62, 62, 1],
+        vec![63],
+        vec![63, 63],
+        {
+            let mut v = vec![1; 95];
+            v.push(63);
+            v
+        },
+    ];
+    let mut out: Vec<Labels> = shapes.iter().map(|s| limits::fill(s)).collect();
+    // arbitrary octets at full length
+    out.push(vec![vec![0xff; 63], vec![0x00; 63], vec![b'.'; 63], vec![b'A'; 61]]);
+    out
+}
+
+fn main() {
+    let ctx = Ctx::from_args("C04", "exploration");
+    let thorough = !ctx.quick();
+
+    if let Some((_key, case)) = ctx.replay_case() {
+        ctx.with_local(|l| match case["family"].as_str().unwrap_or("") {
+            "pair" => pairs::replay_pair(&case, l),
+            "triple" => pairs::replay_triple(&case, l),
+            "wire" => wirefam::replay_wire(&case, l),
+            "refbytes" => wirefam::replay_refbytes(&case, l),
+            "text" => textfam::replay_text(&case, l),
+            "limit" | "limit-unicode" => limits::replay_limit(&case, l),
+            "construct" => {
+                let r = name_from_json(&case["name"]);
+                match build(&r) {
+                    Ok(h) if observe(&h) == r => {}
+                    Ok(_) => l.violation("construct:from_labels-content", "from_labels + iter() do not reproduce the labels", || case.clone()),
+                    Err(e) => l.violation("construct:from_labels-rejects-valid", &e, || case.clone()),
+                }
+                l.eval();
+            }
+            other => vcore::machinery_exit(&format!("unknown replay family {other:?}")),
+        });
+        ctx.finish(false);
+    }
+
+    ctx.set_rule(
+        "E-ENUM. Octet alphabet O = {00 - . * 0 A Z [ \\ _ a z 7f 80 ff}; labels = all strings over O of length 1..2 plus fill \
+         labels of 62/63 octets; U1 = all absolute names of 0..2 labels over those labels; U2 = all names of 0..2 labels over \
+         the 9-octet sub-alphabet {00 . A Z [ a z 80 ff}, absolute AND relative; thorough adds U3 = 0..3 labels over {00 A [ a ff}. \
+         pair family: ALL ordered pairs of U1 (Name eq/hash/cmp, LowerName cmp; thorough: all clauses), of U2 (all clauses incl. \
+         LowerName/RrKey eq/hash/cmp, absolute x relative) and of U3, oracle = vref::name (ASCII-folded label identity + flag; RFC 4034 \
+         6.1 comparator via dense ranks); triple family: transitivity over all triples of a 1-label/2-label absolute+relative \
+         universe. wire family: every name of U1 (+ names at 255 octets / 127 labels) x offsets {0,12,3ffe,3fff,4000} x \
+         {alone, prior identical/suffix/case-variant near and far, follower identical/extended/case-variant} x {compressed, \
+         uncompressed, lowercase} through Name::emit and Name::read, judged by vref::wire::read_name + label identity incl. case \
+         + cursor; hickory's decoder on reference-made literal and pointer encodings. text family: all host-style names (labels \
+         over {a Z 0 _ .} with interior '-', 63-octet labels, leading '*' label) of 1..3 labels, absolute and relative: \
+         from_ascii(to_ascii(n)) identical octets, from_str(to_string(n)) == n. limit family: label-length vectors ({62,63,64}^0..4 \
+         padded to wire totals 253..257, up to 128 labels, single labels up to 300) through from_labels, read (literal, pointer, \
+         pointer chain), from_ascii/from_utf8/parse/from_str(+origin, escapes), append_label, prepend_label, append_name, \
+         append_domain, into_wildcard, to_lowercase, base_name, trim_to: Err, or a name with every label 1..63 and wire length \
+         <= 255 carrying the requested labels. Non-trivial = distinct unordered pairs differing only by case, by exactly one \
+         octet or by label-boundary placement; wire cases that emitted/decoded a pointer or carry upper-case/non-printable \
+         octets; text cases with escapes/star/underscore/hyphen/upper case; limit results at >= 253 octets or with a label >= 62.",
+    );
+    ctx.assume("vref::name (RFC 1035 3.1, RFC 4343, RFC 4034 6.1) and vref::wire::read_name are the reference");
+    ctx.assume("std DefaultHasher (SipHash with fixed keys) stands for 'any hasher' in eq => hash-equal");
+    ctx.assume("relative vs absolute names: RFC 4034 orders absolute names only; across the divide only a total order consistent with equality is demanded");
+
+    // ------------------------------------------------------------------ pair family
+    let full_labels = labels_over(&OCTETS, true);
+    let u1 = pairs::universe(&ctx, fq(names_over(&full_labels, 2)));
+    pairs::run_pairs(&ctx, &u1, thorough, "u1_absolute_full_alphabet");
+
+    let sub_labels = labels_over(&SUB9, true);
+    let u2 = pairs::universe(&ctx, both(names_over(&sub_labels, 2)));
+    pairs::run_pairs(&ctx, &u2, true, "u2_absolute_and_relative");
+
+    if thorough {
+        let l5 = labels_over(&SUB5, true);
+        let u3 = pairs::universe(&ctx, fq(names_over(&l5, 3)));
+        pairs::run_pairs(&ctx, &u3, true, "u3_three_labels");
+    }
+
+    // ------------------------------------------------------------------ triple family
+    {
+        let tl: Vec<Vec<u8>> = vec![b"a".to_vec(), b"A".to_vec(), b"b".to_vec(), vec![0], b"[".to_vec(), b"ab".to_vec(), b"a.".to_vec(), vec![0xff]];
+        let mut names = names_over(&tl, 2);
+        if thorough {
+            names.extend(names_over(&tl[..4], 3).into_iter().filter(|n| n.len() == 3));
+        }
+        let ut = pairs::universe(&ctx, both(names));
+        pairs::run_triples(&ctx, &ut);
+    }
+
+    // ------------------------------------------------------------------ wire family
+    {
+        let mut wn: Vec<Labels> = u1.iter().map(|e| e.r.labels.clone()).collect();
+        wn.extend(boundary_names());
+        let built: Vec<(Labels, hickory_proto::rr::Name)> = wn
+            .into_iter()
+            .filter_map(|l| build(&RefName::new(l.clone(), true)).ok().map(|h| (l, h)))
+            .collect();
+        let scens = wirefam::scenarios();
+        let od = Odometer::new(&[built.len() as u64, wirefam::OFFSETS.len() as u64]);
+        ctx.set("wire_names", json!(built.len()));
+        ctx.par_run_init(
+            od.space(),
+            64,
+            |_| Vec::<u8>::with_capacity(0x4200),
+            |i, l, buf| {
+                let d = od.get(i);
+                let (labels, h) = &built[d[0] as usize];
+                let off = wirefam::OFFSETS[d[1] as usize];
+                for &s in &scens {
+                    for m in wirefam::MODES {
+                        if m == wirefam::Mode::Lowercase && s != wirefam::Scen::Alone {
+                            continue;
+                        }
+                        wirefam::run_wire_case(labels, h, off, s, m, buf, l);
+                    }
+                }
+                for f in wirefam::forms(labels.len()) {
+                    wirefam::run_refbytes_case(labels, h, off, f, buf, l);
+                }
+                if i % 50021 == 0 {
+                    l.sample(wirefam::wire_case_json(labels, off, scens[(i % scens.len() as u64) as usize], wirefam::Mode::Compressed));
+                }
+            },
+        );
+    }
+
+    // ------------------------------------------------------------------ text family
+    {
+        let hl = textfam::host_labels(thorough);
+        let k = hl.len() as u64;
+        let total = textfam::count(k, 3);
+        ctx.set("text_labels", json!(k));
+        ctx.set("text_names", json!(2 * (total + 1 + textfam::count(k, 2) + 1)));
+        ctx.par_run(total, 256, |i, l| {
+            let labels = textfam::nth(&hl, 3, i);
+            for f in [true, false] {
+                textfam::run_text_case(&RefName::new(labels.clone(), f), true, l);
+            }
+            // leading `*` label followed by 0..2 labels: enumerate on the indices of the 1..2-label block
+            if i < textfam::count(k, 2) {
+                let mut w = vec![b"*".to_vec()];
+                w.extend(labels.iter().cloned());
+                for f in [true, false] {
+                    textfam::run_text_case(&RefName::new(w.clone(), f), true, l);
+                }
+            }
+            if i % 30011 == 0 {
+                l.sample(textfam::text_case_json(&RefName::new(labels.clone(), true)));
+            }
+        });
+        ctx.with_local(|l| {
+            textfam::run_text_case(&RefName::new(vec![], true), true, l);
+            for f in [true, false] {
+                textfam::run_text_case(&RefName::new(vec![b"*".to_vec()], f), true, l);
+                // full-length host-style names
+                textfam::run_text_case(&RefName::new(limits::fill(&[63, 63, 63, 61]), f), true, l);
+                textfam::run_text_case(&RefName::new(limits::fill(&vec![1; 127]), f), true, l);
+            }
+            // outside the class of the statement: observations only
+            for lab in [&b"-a"[..], b"a-", b"-", b"a*", b"*a"] {
+                for rest in [vec![], vec![b"z".to_vec()]] {
+                    let mut v = vec![lab.to_vec()];
+                    v.extend(rest);
+                    textfam::run_text_case(&RefName::new(v.clone(), true), false, l);
+                    let mut w = vec![b"z".to_vec()];
+                    w.extend(v);
+                    textfam::run_text_case(&RefName::new(w, true), false, l);
+                }
+            }
+            textfam::run_text_case(&RefName::new(vec![b"a".to_vec(), b"*".to_vec(), b"z".to_vec()], true), false, l);
+        });
+    }
+
+    // ------------------------------------------------------------------ limit family
+    {
+        let shapes = limits::shapes();
+        ctx.set("limit_shapes", json!(shapes.len()));
+        ctx.set("limit_max_labels", json!(shapes.iter().map(|s| s.len()).max().unwrap_or(0)));
+        ctx.par_run(shapes.len() as u64, 4, |i, l| {
+            limits::run_shape(&shapes[i as usize], l);
+            if i % 257 == 0 {
+                l.sample(limits::shape_json(&shapes[i as usize]));
+            }
+        });
+        ctx.par_run(80, 4, |i, l| limits::run_unicode(i as usize + 1, l));
+    }
+
+    // ------------------------------------------------------------------ vacuity guards
+    for class in [
+        "pair:nontrivial-ordered",
+        "wire:ok:pointer-emitted",
+        "wire:ok:pointer-emitted-high-offset",
+        "wire:ok:no-pointer",
+        "refbytes:ok:pointer",
+        "text:ascii-roundtrip:ok",
+        "text:display-fromstr:ok",
+        "text:to_ascii-equals-reference-presentation",
+        "limit:ok-at-255",
+        "limit:from_labels:err-for-invalid",
+        "limit:read:err-for-invalid",
+        "limit:append_label:err-for-invalid",
+        "limit:prepend_label:err-for-invalid",
+        "limit:append_name:err-for-invalid",
+        "limit:append_domain:err-for-invalid",
+        "limit:from_ascii:err-for-invalid",
+        "limit:parse-origin:err-for-invalid",
+        "limit:read-pointer:err-for-invalid",
+    ] {
+        if ctx.outcome_count(class) == 0 {
+            ctx.machinery_failure(&format!("vacuous run: outcome class {class} was never exercised"));
+        }
+    }
+    ctx.finish(true);
+}
